@@ -27,10 +27,12 @@ TIERS = {
     "quick": {"shards": 4, "cases": 4000, "timeout": 300},
     "thorough": {"shards": 16, "cases": 20000, "timeout": 3000},
 }
-FLOORS = {"quick": {"distinct_nontrivial": 1000, "objects_checked": 10000, "attribute_checks": 80000,
+FLOORS = {"quick": {"objects_of_a_class_with_slots": 1300, "rows_of_another_sheet_read_in_between_with_the_same_rules_object": 900,
+                    "distinct_nontrivial": 1000, "objects_checked": 10000, "attribute_checks": 80000,
                     "ladder_cells_taken_from_above": 2000, "range_key_origins_checked": 8000,
                     "optional_column_missing": 1000, "sheets_with_trailing_content": 1000},
-          "thorough": {"distinct_nontrivial": 50000, "objects_checked": 500000, "attribute_checks": 4000000,
+          "thorough": {"objects_of_a_class_with_slots": 5300, "rows_of_another_sheet_read_in_between_with_the_same_rules_object": 3500,
+                       "distinct_nontrivial": 50000, "objects_checked": 500000, "attribute_checks": 4000000,
                        "ladder_cells_taken_from_above": 100000, "range_key_origins_checked": 400000,
                        "optional_column_missing": 50000, "sheets_with_trailing_content": 50000}}
 LEVEL_TEXT = ("Runtime exploration with a reference binding: the real reader runs over generated worksheets (own "
